@@ -55,6 +55,7 @@ pub fn replay_fails(v: &Value) -> Option<(bool, String)> {
         "sem-refc" => c01::replay_case(v),
         "sem-opt" => c02::replay_case(v),
         "c13" => c13::replay_case(v),
+        "c13-text" => c13::replay_text(v),
         "c04" => c04::replay_case(v),
         "c07" => c07::replay_case(v),
         "c10" => c10::replay_case(v),
